@@ -182,6 +182,20 @@ class Check(PropertyCheck):
             for inst in later + first + sized[:3]:
                 res += [(k, f"(generator with seed {seed}, after direct create_random_operation() calls) {msg}")
                         for k, msg in self.shape(inst, j1, max(j2, nj), m1, max(m2, nj), 1, 9, al, rc, k1, k2)]
+            # support with a mixed range (1..2 machines per operation, no recirculation): eligible machines are drawn from ALL machines
+            # for every operation - the machine of a single-machine operation can come up again later in the same job
+            gm = GeneralInstanceGenerator(num_jobs=4, num_machines=6, machines_per_operation=(1, 2), seed=seed)
+            again = total = 0
+            for _ in range(20):
+                for job in gm.generate().jobs:
+                    singles = [(p, op.machines[0]) for p, op in enumerate(job) if len(op.machines) == 1]
+                    if singles:
+                        p0, m0 = singles[0]
+                        total += 1
+                        again += any(m0 in op.machines for op in job[p0 + 1:])
+            if total >= 30 and again == 0:
+                res.append(("support", f"machines_per_operation=(1, 2), 6 machines: in {total} jobs the machine of the first single-machine "
+                            "operation never came up again later in its job (eligible machines are not drawn from all machines)"))
             # support: all machines occur over many draws when k >= 2
             M = 5
             g = GeneralInstanceGenerator(num_jobs=4, num_machines=M, machines_per_operation=2, seed=seed)
